@@ -1,0 +1,15 @@
+//go:build verif
+
+package reader
+
+import "github.com/milvus-io/milvus/pkg/mq/msgstream"
+
+// VerifYield, when set by a verification driver, is called at the scheduling
+// points of the per-stream pack pipeline.  It may block (scheduler gate).
+var VerifYield func(point string, pack *msgstream.MsgPack)
+
+func verifYield(point string, pack *msgstream.MsgPack) {
+	if f := VerifYield; f != nil {
+		f(point, pack)
+	}
+}
